@@ -221,6 +221,11 @@ def check_ternary(params):
     if cls != "cat" and params.get("tensor", True):
         if not same((f @ g) @ h, f @ (g @ h)):
             bad("assoc-tensor", "(f @ g) @ h = %s but f @ (g @ h) = %s" % ((f @ g) @ h, f @ (g @ h)))
+        if not same(f.tensor(g, h), (f @ g) @ h):
+            bad("tensor-nary", "f.tensor(g, h) = %s but (f @ g) @ h = %s" % (f.tensor(g, h), (f @ g) @ h))
+        if tykey(f.dom.tensor(g.dom, h.dom)) != tykey(f.dom @ g.dom @ h.dom) \
+                or tykey((f @ g @ h).dom) != tykey(f.dom.tensor(g.dom, h.dom)):
+            bad("type-tensor-nary", "dom.tensor(dom, dom) disagrees with dom @ dom @ dom")
     return out
 
 
